@@ -69,7 +69,7 @@ def build_source(items, contexts=("c", "q")):
         for ctx, body in (("c", conc), ("q", seq)):
             if ctx not in contexts:
                 continue
-            prelude = {"lines": [], "prefix": f"cv{ctx}{i}_"}
+            prelude = {"lines": [], "prefix": f"cv{ctx}{i}_", "ctx": ctx}
             text = G.render(tree, leaf, "hw", prelude)
             ports.append(f"    {ctx}{i} = Port.output({ot})")
             body.extend("            " + ln for ln in prelude["lines"])
@@ -241,7 +241,7 @@ def _check_live(live, vals, out, contexts, allow_split):
         return
     status, info = compile_items(live, contexts)
     if status == "rejected":
-        if len(live) == 1 and len(contexts) > 1 and "'conv'" in repr(live[0][1]):
+        if len(live) == 1 and len(contexts) > 1 and ("'conv'" in repr(live[0][1]) or "'src'" in repr(live[0][1])):
             # conversion forms may be legal in one kind of context only (Variable): decide per context
             _split_contexts(live, out, contexts, info)
             return
@@ -452,6 +452,9 @@ def families(run: Run):
             (1, 2, 3), mixed=True, mixed_only=("cat", "eq", "bitwise", "boolop", "ifexp", "select"))
         yield "nested constant slice/index chains (length 1..3)", G.slice_chains(quick=True)
         yield "conversions by assignment/construction, widths{1,2,3}", G.conversions((1, 2, 3), operand_src_widths=(1, 2))
+        yield "multi-part subscripts", G._dedup(G.multi_subscripts(quick=True))
+        yield "operand sources x typed views", G.source_views(quick=True)
+        yield "operand sources in if-expressions / select_with", G._dedup(G.source_selects(quick=True))
         # beyond the complete bound: a seed-chosen 1/150 stratum of the depth-2 family
         pick = run.seed % 150
         yield f"depth2 widths{{1,2}} stratum {pick}/150 (seed-chosen)", (
@@ -461,6 +464,9 @@ def families(run: Run):
         yield "depth1 with typed constant operands, widths{1..4}", G.depth1_const((1, 2, 3, 4), mixed=True)
         yield "nested constant slice/index chains (length 1..3)", G.slice_chains(quick=False)
         yield "conversions by assignment/construction, widths{1..4}", G.conversions((1, 2, 3, 4))
+        yield "multi-part subscripts", G._dedup(G.multi_subscripts(quick=False))
+        yield "operand sources x typed views", G.source_views(quick=False)
+        yield "operand sources in if-expressions / select_with", G._dedup(G.source_selects(quick=False))
         yield "depth2 widths{1,2}", G.depth2((1, 2))
 
 
